@@ -122,6 +122,8 @@ class FiniteEval:
             return self.ev(n.body) if self.ev(n.test) else self.ev(n.orelse)
         if isinstance(n, ast.Call):
             f = ast.unparse(n.func)
+            if ast.unparse(n) in self.env:
+                return self.env[ast.unparse(n)]
             if f in self.calls:
                 return self.calls[f](*[self.ev(a) for a in n.args])
             if f == 'range':
